@@ -62,6 +62,14 @@ def build_harness(race=False):
     if os.path.exists(gosum):
         shutil.copy(gosum, os.path.join(HARNESS, "go.sum"))
     cmd = ["go", "build", "-tags", "verif"]
+    if os.path.abspath(REPO) != "/repo":
+        # checks can be pointed at another tree (VERIF_REPO): derived go.mod with the replace redirected
+        mf = os.path.join(scratch(), "alt.mod")
+        with open(mf, "w") as f:
+            f.write(open(os.path.join(HARNESS, "go.mod")).read().replace("=> /repo", "=> " + os.path.abspath(REPO)))
+        if os.path.exists(gosum):
+            shutil.copy(gosum, os.path.join(scratch(), "alt.sum"))
+        cmd.append("-modfile=" + mf)
     if race:
         cmd.append("-race")
     cmd += ["-o", out, "./cmd/vharness"]
